@@ -221,7 +221,8 @@ def compare(a, b, what, plan):
 C_OPS = ['srv event', 'srv event+id', 'srv binary event+id', 'srv event nobody+id', 'srv ack known', 'srv ack unknown',
          'srv ack duplicate', 'srv disconnect /', 'srv disconnect /a', 'srv connect_error /a', 'emit', 'emit cb',
          'emit raising-cb', 'emit unconnected', 'send', 'disconnect()', 'loss', 'server close', 'malformed', 'stray binary',
-         'srv half binary', 'reconnect', 'connect refused by HTTP status', 'connect unreachable']
+         'srv half binary', 'reconnect', 'connect refused by HTTP status', 'connect unreachable',
+         'connect and wait: more confirmed than asked']
 
 
 def run_client(asyncio_, plan):
@@ -330,6 +331,50 @@ def run_client(asyncio_, plan):
                 api('connect', lambda: w.c.connect('http://h', namespaces=['/', '/a'], wait=False))
                 for ns in ('/', '/a'):
                     w.accept(ns)
+        elif name.startswith('connect and wait'):
+            if w.eio.state == 'disconnected':
+                # connect(wait=True): the server's answers arrive while connect() waits. Either it confirms a namespace
+                # that was not asked for besides the one that was, or it refuses one of the two that were asked for
+                extra = 'more confirmed' in name
+                n0 = [len(w.eio.out)]
+
+                def answers():
+                    out = []
+                    new = [f for f in w.eio.out[n0[0]:] if not isinstance(f, tuple)]
+                    n0[0] = len(w.eio.out)
+                    for p in worlds.decode_frames(w.P, new):
+                        if isinstance(p, tuple) or p.packet_type != packet.CONNECT:
+                            continue
+                        ns = p.namespace or '/'
+                        if extra:
+                            out.append(w.P(packet.CONNECT, data={'sid': 'x' + ns}, namespace=ns))
+                            out.append(w.P(packet.CONNECT, data={'sid': 'unasked'}, namespace='/'))
+                        elif ns == '/':
+                            out.append(w.P(packet.CONNECT, data={'sid': 'x' + ns}, namespace=ns))
+                        else:
+                            out.append(w.P(packet.CONNECT_ERROR, data={'message': 'no'}, namespace=ns))
+                    return [worlds.encode_frames(p)[0] for p in out]
+                if asyncio_:
+                    from vf import miniloop
+
+                    async def server():
+                        await miniloop._Suspend('cond', lambda: len(w.eio.out) > n0[0], None, 'server idle')
+                        for fr in answers():
+                            await w.eio.recv(fr)
+                    miniloop.create_task(server(), 'server')
+                else:
+                    from vf import waithook
+
+                    def hook(event, timeout):
+                        for fr in answers():
+                            w.eio.recv(fr)
+                    waithook.HOOK[0] = hook
+                try:
+                    api('connect', lambda: w.c.connect('http://h', namespaces=['/a'] if extra else ['/', '/a'], wait=True,
+                                                       wait_timeout=1))
+                finally:
+                    if not asyncio_:
+                        waithook.HOOK[0] = None
         elif name in ('connect refused by HTTP status', 'connect unreachable'):
             if w.eio.state == 'disconnected':
                 # engine.io raises ConnectionError(message) when the server cannot be reached and
